@@ -1,12 +1,12 @@
 #!/bin/sh
 # Runs the repository's pinned suite with the verif guard OFF (no build tag) and prints a summary.
 export GOFLAGS=-mod=mod GOPROXY=off GOSUMDB=off GOTOOLCHAIN=local
-cd /repo && go test -json -vet=off -count=1 -timeout 25m ./... > /var/tmp/vmon-baseline.json 2>/var/tmp/vmon-baseline.err
+mkdir -p /verif/work; cd /repo && go test -json -vet=off -count=1 -timeout 25m ./... > /verif/work/baseline.json 2>/verif/work/baseline.err
 rc=$?
 python3 - <<'PY'
 import json
 p=f=0; failed=[]
-for l in open('/var/tmp/vmon-baseline.json'):
+for l in open('/verif/work/baseline.json'):
     try: e=json.loads(l)
     except Exception: continue
     if e.get('Test') and e.get('Action') in ('pass','fail'):
